@@ -73,6 +73,11 @@ def uses_nondyadic(p):
     return any(c['tempo'] in proggen.OTHER_TEMPOS for c in p['clocks'])
 
 
+def has_tempo_ops(p):
+    return any(op[0] == 'tempo' for r in p['routines'].values()
+               for op in r['body'])
+
+
 def nontrivial_prog(p):
     used = set()
     cross = False
@@ -97,7 +102,13 @@ def nontrivial_prog(p):
 def compare_logs(real, model, tol, v, what, ordered=True):
     rl = [x for x in real if x['kind'] == 'log']
     ml = [x for x in model if x['kind'] == 'log']
-    if not ordered:
+    if ordered == 'ties_free':
+        # tempo changes re-key the sleepers of a clock: the order between
+        # routines of different clocks that wake at one instant is not
+        # defined afterwards (each routine's own sequence and the times are)
+        key = lambda x: (F(x['secs']), str(x['r']))
+        rl, ml = sorted(rl, key=key), sorted(ml, key=key)
+    elif not ordered:
         # inexact (non-dyadic) arithmetic: the relative order of events that
         # are simultaneous in exact arithmetic is not defined; compare each
         # routine's own sequence
@@ -143,9 +154,13 @@ def run_nrt(p, v):
     out = prog.run_nrt(p)
     tol = TOL_FLOAT if uses_nondyadic(p) else TOL_DYADIC
     compare_logs(out['trace'], m.trace, tol, v, 'nrt',
-                 ordered=not uses_nondyadic(p))
+                 ordered=False if uses_nondyadic(p) else
+                 'ties_free' if has_tempo_ops(p) else True)
     secs = [x['secs'] for x in out['trace'] if x['kind'] == 'log']
-    if any(b < a for a, b in zip(secs, secs[1:])):
+    # (inexact tempos: a start time converted to beats and back may come
+    # out an ulp below the parent's time)
+    slack = float(tol) if uses_nondyadic(p) else 0.0
+    if any(b < a - slack * max(1.0, abs(a)) for a, b in zip(secs, secs[1:])):
         v.fail('nrt_time_decreases', f'{secs}')
     if not close(out['elapsed'], m.last_event, tol):
         v.fail('nrt_elapsed_end',
